@@ -48,10 +48,12 @@ type cadenceCase struct {
 	Dist       string
 	Conc       int
 	BodyUs     int
+	Limit      uint64 // max-iterations of the run (0 = none); chosen so that it cannot be reached
+	Special    string // "" | "limit-above-reach" | "huge-ticks"
 }
 
 func (c cadenceCase) desc() string {
-	return fmt.Sprintf("interval=%dus(+%dms) run=%dms profile=%s n=%d stages=%q dist=%s c=%d body=%dus", c.IntervalUs, c.IntervalMs, c.RunMs, c.Profile, c.N, c.Stages, c.Dist, c.Conc, c.BodyUs)
+	return fmt.Sprintf("interval=%dus(+%dms) run=%dms profile=%s n=%d stages=%q dist=%s c=%d body=%dus limit=%d %s", c.IntervalUs, c.IntervalMs, c.RunMs, c.Profile, c.N, c.Stages, c.Dist, c.Conc, c.BodyUs, c.Limit, c.Special)
 }
 
 func TestProp_WrappedRateCadence(t *testing.T) {
@@ -66,6 +68,29 @@ func TestProp_WrappedRateCadence(t *testing.T) {
 			Dist:       rapid.SampledFrom([]string{"none", "none", "regular", "random"}).Draw(rt, "distribution"),
 			Conc:       rapid.OneOf(rapid.IntRange(1, 4), rapid.IntRange(1, 64), rapid.SampledFrom([]int{2000, 10000, 30000})).Draw(rt, "concurrency"),
 			BodyUs:     rapid.SampledFrom([]int{0, 100, 2000}).Draw(rt, "bodyMicros"),
+		}
+		switch rapid.IntRange(0, 9).Draw(rt, "special") {
+		case 0:
+			// a max-iterations limit that the run cannot reach (at most Conc*(run/body+1) = 8 iterations
+			// can start) but that every tick's request exceeds: the limit must not alter what a tick
+			// requests - everything not started is recorded as dropped
+			c.Special = "limit-above-reach"
+			c.Profile, c.Dist = "constant", "none"
+			c.Conc = rapid.IntRange(1, 2).Draw(rt, "concSmall")
+			c.BodyUs = 150000
+			c.RunMs = rapid.IntRange(50, 300).Draw(rt, "runMsShort")
+			c.Limit = uint64(rapid.IntRange(10, 40).Draw(rt, "limit"))
+			c.N = int(c.Limit) + rapid.IntRange(1, 30).Draw(rt, "aboveLimit")
+		case 1:
+			// ticks far larger than the pool: thousands of requests are dropped per tick, and all of them
+			// must be in the totals the run reports
+			c.Special = "huge-ticks"
+			c.Profile, c.Dist = "constant", "none"
+			c.Conc = rapid.IntRange(1, 4).Draw(rt, "concSmall")
+			c.BodyUs = 2000
+			c.IntervalMs = rapid.IntRange(20, 100).Draw(rt, "intervalMsHuge")
+			c.RunMs = rapid.IntRange(50, 300).Draw(rt, "runMsShort")
+			c.N = rapid.SampledFrom([]int{1500, 5000, 20000, 60000}).Draw(rt, "hugeN")
 		}
 		var rates *api.Rates
 		var err error
@@ -147,6 +172,7 @@ func TestProp_WrappedRateCadence(t *testing.T) {
 		spec.Opts.Concurrency = c.Conc
 		spec.Opts.MaxDuration = time.Duration(c.RunMs) * time.Millisecond
 		spec.Opts.IgnoreDropped = true
+		spec.Opts.MaxIterations = c.Limit
 		out, err := vlib.Execute(spec)
 		if err != nil {
 			rt.Fatalf("VERIF-INFRA: %v", err)
@@ -154,6 +180,9 @@ func TestProp_WrappedRateCadence(t *testing.T) {
 		snap := out.Result.Snapshot()
 		started := snap.SuccessfulIterationDurations.Count + snap.FailedIterationDurations.Count
 		total := started + snap.DroppedIterationCount
+		if c.Limit > 0 && started >= c.Limit {
+			rt.Fatalf("VERIF-INFRA: %d iterations started although the case was built so that max-iterations %d is out of reach (%s)", started, c.Limit, c.desc())
+		}
 		mu.Lock()
 		ev := append([]evaluation{}, evals...)
 		mu.Unlock()
@@ -175,6 +204,9 @@ func TestProp_WrappedRateCadence(t *testing.T) {
 		}
 		if interval != tick {
 			cls = append(cls, "distributed-subticks")
+		}
+		if c.Special != "" {
+			cls = append(cls, c.Special)
 		}
 		stats.Case("wrapped", c.desc(), nontrivial, cls, func() any {
 			return map[string]any{"case": c.desc(), "evaluations": len(ev), "requested": sum, "started": started, "dropped": snap.DroppedIterationCount}
